@@ -1,8 +1,14 @@
 // C17 correspondence harness: the REAL block.Manager.AggregationLoop (lazy and normal mode), built by
 // the real NewManager, runs unmodified inside a testing/synctest bubble (virtual clock).  publishBlock is
 // replaced (hook VerifSetPublishBlock) by a recorder that notes the virtual start instant and sleeps the
-// generated duration; notifications go through the real NotifyNewTransactions at generated virtual
-// instants.  Output: cases_C17.v (trace inclusion against Model/Lazy.v) and result.json (Go oracle: the
+// generated duration and, like the real publishBlockInternal, advances the store height at its very end
+// (or not: productions that return early); notifications come from two sources: bare calls of the real
+// NotifyNewTransactions at generated virtual instants, and the REAL block.Reaper connected to the manager
+// (SetManager): Reaper.SubmitTxs is called at generated instants -- before, DURING and after productions in
+// flight -- or by the reaper's own ticker loop (Reaper.Start), against a scripted executor double (GetTxs:
+// new, repeated, duplicated transactions, errors), a recording sequencer double (accepts or refuses) and a
+// seen-store whose writes fail in scripted calls.
+// Output: cases_C17.v (trace inclusion against Model/Lazy.v) and result.json (Go oracle: the
 // property evaluated directly on the observed starts).
 package c17
 
@@ -25,6 +31,7 @@ import (
 
 	"github.com/evstack/ev-node/block"
 	coreexecutor "github.com/evstack/ev-node/core/execution"
+	coresequencer "github.com/evstack/ev-node/core/sequencer"
 	"github.com/evstack/ev-node/pkg/config"
 	"github.com/evstack/ev-node/pkg/genesis"
 	"github.com/evstack/ev-node/pkg/store"
@@ -46,6 +53,153 @@ type Replay struct {
 	DDef   int64   `json:"ddef"`
 	Notifs []int64 `json:"notifs"`
 	H      int64   `json:"h"`
+	// the reaper: calls of Reaper.SubmitTxs in order (instants >= 0, ascending); RTick > 0: the calls are made
+	// by the reaper's own loop (Reaper.Start, launched at RStart, ticker interval RTick; call k at
+	// RStart+(k+1)*RTick), otherwise by the harness at the instants T
+	Reaper []REv `json:"reaper,omitempty"`
+	RTick  int64 `json:"rtick,omitempty"`
+	RStart int64 `json:"rstart,omitempty"`
+	// indices of the productions that end without advancing the store height (publishBlock returns early:
+	// pending limit reached, no batch, ...)
+	NoAdv []int `json:"noadv,omitempty"`
+}
+
+// REv is one call of Reaper.SubmitTxs with the scripted answers of the doubles.
+type REv struct {
+	T       int64   `json:"t"`
+	Txs     []int64 `json:"txs"`                // ids of the transactions exec.GetTxs lists
+	GetErr  bool    `json:"get_err,omitempty"`  // exec.GetTxs fails
+	SubErr  bool    `json:"sub_err,omitempty"`  // sequencer.SubmitBatchTxs refuses
+	SeenErr bool    `json:"seen_err,omitempty"` // the seen-store refuses the writes of this call
+}
+
+// subRec is one observed call of SubmitBatchTxs on the sequencer double.
+type subRec struct {
+	T   int64
+	Ids []int64
+	OK  bool
+}
+
+// normalise puts the reaper events in execution order with their scripted instants.
+func (r *Replay) normalise() {
+	if r.RTick > 0 {
+		if r.RStart < 0 {
+			r.RStart = 0
+		}
+		for k := range r.Reaper {
+			r.Reaper[k].T = r.RStart + int64(k+1)*r.RTick
+		}
+		return
+	}
+	for k := range r.Reaper {
+		if r.Reaper[k].T < 0 {
+			r.Reaper[k].T = 0
+		}
+	}
+	sort.SliceStable(r.Reaper, func(i, j int) bool { return r.Reaper[i].T < r.Reaper[j].T })
+}
+
+func (r *Replay) noAdv(k int) bool {
+	for _, x := range r.NoAdv {
+		if x == k {
+			return true
+		}
+	}
+	return false
+}
+
+// ---- the doubles of the reaper's collaborators ------------------------------------------------------
+
+func txBytes(id int64) []byte { return []byte("tx-" + strconv.FormatInt(id, 10)) }
+func txID(b []byte) int64 {
+	v, err := strconv.ParseInt(strings.TrimPrefix(string(b), "tx-"), 10, 64)
+	if err != nil {
+		return -1
+	}
+	return v
+}
+
+// script answers the k-th call of GetTxs with the k-th event (nothing beyond the script) and the call of
+// SubmitBatchTxs made by the same SubmitTxs accordingly; it records what the sequencer was handed.
+type script struct {
+	begin time.Time
+	evs   []REv
+	k     int // calls of GetTxs so far
+	subs  []subRec
+}
+
+type scriptExec struct{ s *script }
+
+func (e scriptExec) InitChain(context.Context, time.Time, uint64, string) ([]byte, uint64, error) {
+	return nil, 0, nil
+}
+func (e scriptExec) GetTxs(context.Context) ([][]byte, error) {
+	k := e.s.k
+	e.s.k++
+	if k >= len(e.s.evs) {
+		return nil, nil
+	}
+	if e.s.evs[k].GetErr {
+		return nil, fmt.Errorf("scripted GetTxs error")
+	}
+	var out [][]byte
+	for _, id := range e.s.evs[k].Txs {
+		out = append(out, txBytes(id))
+	}
+	return out, nil
+}
+func (e scriptExec) ExecuteTxs(context.Context, [][]byte, uint64, time.Time, []byte) ([]byte, uint64, error) {
+	return nil, 0, nil
+}
+func (e scriptExec) SetFinal(context.Context, uint64) error { return nil }
+
+// scriptSeen is the reaper's seen-store: an in-memory datastore whose writes fail during the calls of
+// SubmitTxs scripted so.
+type scriptSeen struct {
+	ds.Batching
+	s *script
+}
+
+func (d scriptSeen) failing() bool {
+	k := d.s.k - 1
+	return k >= 0 && k < len(d.s.evs) && d.s.evs[k].SeenErr
+}
+func (d scriptSeen) Put(ctx context.Context, key ds.Key, v []byte) error {
+	if d.failing() {
+		return fmt.Errorf("scripted seen-store write error")
+	}
+	return d.Batching.Put(ctx, key, v)
+}
+func (d scriptSeen) Batch(ctx context.Context) (ds.Batch, error) {
+	if d.failing() {
+		return nil, fmt.Errorf("scripted seen-store write error")
+	}
+	return d.Batching.Batch(ctx)
+}
+
+type scriptSeq struct{ s *script }
+
+func (q scriptSeq) SubmitBatchTxs(_ context.Context, req coresequencer.SubmitBatchTxsRequest) (*coresequencer.SubmitBatchTxsResponse, error) {
+	rec := subRec{T: int64(time.Since(q.s.begin)), OK: true}
+	if req.Batch != nil {
+		for _, tx := range req.Batch.Transactions {
+			rec.Ids = append(rec.Ids, txID(tx))
+		}
+	}
+	if k := q.s.k - 1; k >= 0 && k < len(q.s.evs) && q.s.evs[k].SubErr {
+		rec.OK = false
+	}
+	q.s.subs = append(q.s.subs, rec)
+	if !rec.OK {
+		return nil, fmt.Errorf("scripted SubmitBatchTxs refusal")
+	}
+	return &coresequencer.SubmitBatchTxsResponse{}, nil
+}
+func (q scriptSeq) GetNextBatch(context.Context, coresequencer.GetNextBatchRequest) (*coresequencer.GetNextBatchResponse, error) {
+	return &coresequencer.GetNextBatchResponse{}, nil
+}
+func (q scriptSeq) VerifyBatch(context.Context, coresequencer.VerifyBatchRequest) (*coresequencer.VerifyBatchResponse, error) {
+	return &coresequencer.VerifyBatchResponse{Status: true}, nil
 }
 
 func (r *Replay) effBT() int64 {
@@ -81,9 +235,11 @@ func (r *Replay) dur(k int) int64 {
 
 var rootDir string
 
-// runReal returns the virtual start instants (< H) of the calls of publishBlock.
-func runReal(t *testing.T, rp *Replay) (starts []int64, err error) {
+// runReal returns the virtual start instants (< H) of the calls of publishBlock and the calls (< H) of
+// SubmitBatchTxs the sequencer double received from the real Reaper.
+func runReal(t *testing.T, rp *Replay) (starts []int64, subs []subRec, err error) {
 	logger := logging.Logger("c17")
+	rp.normalise()
 	synctest.Test(t, func(t *testing.T) {
 		begin := time.Now()
 		cfg := config.DefaultConfig
@@ -104,13 +260,40 @@ func runReal(t *testing.T, rp *Replay) (starts []int64, err error) {
 		var rec []int64
 		m.VerifSetPublishBlock(func(ctx context.Context) error {
 			rec = append(rec, int64(time.Since(begin)))
+			kk := k
 			d := rp.dur(k)
 			k++
 			if d > 0 {
 				time.Sleep(time.Duration(d))
 			}
+			// like publishBlockInternal: the store height advances at the very end of a production
+			if !rp.noAdv(kk) {
+				h, e := st.Height(ctx)
+				if e != nil {
+					return e
+				}
+				if e := st.SetHeight(ctx, h+1); e != nil {
+					return e
+				}
+			}
 			return nil
 		})
+		// the real Reaper, connected to the manager as node/full.go does
+		sc := &script{begin: begin, evs: rp.Reaper}
+		ctx, cancel := context.WithCancel(context.Background())
+		interval := time.Duration(rp.RTick)
+		if interval <= 0 {
+			interval = time.Hour
+		}
+		reaper := block.NewReaper(ctx, scriptExec{sc}, scriptSeq{sc}, "c17", interval, logger, scriptSeen{dssync.MutexWrap(ds.NewMapDatastore()), sc})
+		reaper.SetManager(m)
+		ri := 0
+		if rp.RTick <= 0 {
+			// submissions before the loop is entered
+			for ; ri < len(rp.Reaper) && rp.Reaper[ri].T <= 0 && rp.Reaper[ri].T < rp.H; ri++ {
+				reaper.SubmitTxs()
+			}
+		}
 		ns := append([]int64{}, rp.Notifs...)
 		sort.Slice(ns, func(i, j int) bool { return ns[i] < ns[j] })
 		// notifications before the loop is entered
@@ -118,11 +301,37 @@ func runReal(t *testing.T, rp *Replay) (starts []int64, err error) {
 		for ; i < len(ns) && ns[i] < 0; i++ {
 			m.NotifyNewTransactions()
 		}
-		ctx, cancel := context.WithCancel(context.Background())
 		errCh := make(chan error, 1)
 		loopDone := make(chan struct{})
 		notDone := make(chan struct{})
+		reapDone := make(chan struct{})
 		go func() { defer close(loopDone); m.AggregationLoop(ctx, errCh) }()
+		go func() {
+			defer close(reapDone)
+			if rp.RTick > 0 {
+				if len(rp.Reaper) == 0 {
+					return
+				}
+				if w := time.Duration(rp.RStart) - time.Since(begin); w > 0 {
+					select {
+					case <-time.After(w):
+					case <-ctx.Done():
+						return
+					}
+				}
+				reaper.Start(ctx) // the reaper's own ticker loop
+				return
+			}
+			for ; ri < len(rp.Reaper); ri++ {
+				if rp.Reaper[ri].T >= rp.H {
+					return
+				}
+				if w := time.Duration(rp.Reaper[ri].T) - time.Since(begin); w > 0 {
+					time.Sleep(w)
+				}
+				reaper.SubmitTxs()
+			}
+		}()
 		go func() {
 			defer close(notDone)
 			for ; i < len(ns); i++ {
@@ -142,9 +351,15 @@ func runReal(t *testing.T, rp *Replay) (starts []int64, err error) {
 				starts = append(starts, s)
 			}
 		}
+		for _, b := range sc.subs {
+			if b.T < rp.H {
+				subs = append(subs, b)
+			}
+		}
 		cancel()
 		<-loopDone
 		<-notDone
+		<-reapDone
 		select {
 		case e := <-errCh:
 			err = e
@@ -165,7 +380,7 @@ func nextFire(interval, s, d int64) int64 {
 	return s + d + msNs
 }
 
-func oracle(rp *Replay, starts []int64) []viol {
+func oracle(rp *Replay, starts []int64, subs []subRec) []viol {
 	var vs []viol
 	add := func(sig, f string, a ...interface{}) {
 		for _, v := range vs {
@@ -216,9 +431,14 @@ func oracle(rp *Replay, starts []int64) []viol {
 		return vs
 	}
 	anyNotif := false
-	for _, t := range rp.Notifs {
+	// every notification instant -- a bare call of NotifyNewTransactions (pre = "") or a batch of new
+	// transactions the sequencer accepted from the reaper (pre = "reaper-tx-": the instant is taken from the
+	// sequencer double, independently of what the reaper told the manager) -- must be answered within one block
+	// interval: by a production starting in [t, t+w], or, when t falls inside a production, by a FURTHER
+	// production no later than the block timer that production re-armed; never only by the idle timer
+	answer := func(t int64, pre, src string) {
 		if t >= H {
-			continue
+			return
 		}
 		anyNotif = true
 		if t < t0 {
@@ -234,7 +454,7 @@ func oracle(rp *Replay, starts []int64) []viol {
 		found := false
 		if inflight {
 			if bound >= H {
-				continue
+				return
 			}
 			for _, s := range starts {
 				if s > t && s <= bound {
@@ -242,11 +462,11 @@ func oracle(rp *Replay, starts []int64) []viol {
 				}
 			}
 			if !found {
-				add("lost-wakeup", "notification at %d during a production; no further production up to %d", t, bound)
+				add(pre+"lost-wakeup", "%s at %d during a production; no further production up to %d", src, t, bound)
 			}
 		} else {
 			if t+w >= H {
-				continue
+				return
 			}
 			for _, s := range starts {
 				if s >= t && s <= t+w {
@@ -254,8 +474,16 @@ func oracle(rp *Replay, starts []int64) []viol {
 				}
 			}
 			if !found {
-				add("on-demand-late", "notification at %d (idle); no production in [%d,%d]", t, t, t+w)
+				add(pre+"on-demand-late", "%s at %d (idle); no production in [%d,%d]", src, t, t, t+w)
 			}
+		}
+	}
+	for _, t := range rp.Notifs {
+		answer(t, "", "notification")
+	}
+	for _, b := range subs {
+		if b.OK && len(b.Ids) > 0 {
+			answer(b.T, "reaper-tx-", fmt.Sprintf("transactions %v handed to the sequencer by the reaper", b.Ids))
 		}
 	}
 	if !anyNotif {
@@ -380,7 +608,122 @@ func genCase(r *rand.Rand, seed int64, c int, tier string) *Replay {
 		}
 		rp.Notifs = append(rp.Notifs, t)
 	}
+	genReaper(r, rp)
 	return rp
+}
+
+// pool is the executor double's mempool while a script is generated: the ids introduced so far.
+type pool struct {
+	next int64
+	ids  []int64
+}
+
+// answer builds what GetTxs lists at one call: 0-2 new transactions (none with probability pNone) plus, as real
+// executors do, transactions it has listed before (all of them, some of them, the same one twice).
+func (p *pool) answer(r *rand.Rand, pNone int) REv {
+	ev := REv{}
+	var fresh []int64
+	if r.Intn(100) >= pNone {
+		for n := 1 + r.Intn(5)/4; n > 0; n-- {
+			p.next++
+			fresh = append(fresh, p.next)
+		}
+	}
+	switch x := r.Intn(100); {
+	case x < 35: // the whole mempool, oldest first
+		ev.Txs = append(append([]int64{}, p.ids...), fresh...)
+	case x < 55: // some old ones around the new ones
+		for _, id := range p.ids {
+			if r.Intn(3) == 0 {
+				ev.Txs = append(ev.Txs, id)
+			}
+		}
+		ev.Txs = append(ev.Txs, fresh...)
+		if len(p.ids) > 0 && r.Intn(2) == 0 {
+			ev.Txs = append(ev.Txs, p.ids[r.Intn(len(p.ids))])
+		}
+	default:
+		ev.Txs = append(ev.Txs, fresh...)
+	}
+	if len(ev.Txs) > 0 && r.Intn(8) == 0 { // the same transaction listed twice in one answer
+		ev.Txs = append(ev.Txs, ev.Txs[r.Intn(len(ev.Txs))])
+	}
+	if len(ev.Txs) > 12 {
+		ev.Txs = ev.Txs[len(ev.Txs)-12:]
+	}
+	p.ids = append(p.ids, fresh...)
+	switch x := r.Intn(100); {
+	case x < 5:
+		ev.GetErr = true
+	case x < 12:
+		ev.SubErr = true
+	case x < 18:
+		ev.SeenErr = true
+	}
+	return ev
+}
+
+func maxID(rp *Replay) int64 {
+	m := int64(0)
+	for _, e := range rp.Reaper {
+		for _, id := range e.Txs {
+			if id > m {
+				m = id
+			}
+		}
+	}
+	return m
+}
+
+// genReaper decides where the notifications of the case come from: bare calls of NotifyNewTransactions only
+// (20%), the real Reaper only (30%: every generated instant becomes a call of Reaper.SubmitTxs), a mixture
+// (35%), or the reaper's own ticker loop next to the bare notifications (15%).
+func genReaper(r *rand.Rand, rp *Replay) {
+	// productions that end without advancing the store height
+	if r.Intn(100) < 12 {
+		for k := 0; k < 12; k++ {
+			if r.Intn(3) == 0 {
+				rp.NoAdv = append(rp.NoAdv, k)
+			}
+		}
+	}
+	mode := r.Intn(100)
+	if mode < 20 {
+		return
+	}
+	p := &pool{}
+	if mode >= 85 {
+		bt := rp.effBT()
+		rp.RTick = pick(r, bt, bt, bt/2, bt/3+1, 2*bt, bt/4+1, bt+bt/7, 3*bt/2)
+		if rp.RTick < 1000 {
+			rp.RTick = 1000
+		}
+		rp.RStart = pick(r, 0, 0, rp.t0(), rp.t0()/2, bt/3, r.Int63n(bt+1))
+		n := int((rp.H - rp.RStart) / rp.RTick)
+		if n > 60 {
+			n = 60
+		}
+		for k := 0; k < n; k++ {
+			rp.Reaper = append(rp.Reaper, p.answer(r, 70))
+		}
+		if r.Intn(2) == 0 {
+			rp.Notifs = nil
+		}
+		rp.normalise()
+		return
+	}
+	var keep []int64
+	for _, t := range rp.Notifs {
+		if mode < 50 || r.Intn(100) < 60 {
+			ev := p.answer(r, 12)
+			ev.T = t
+			rp.Reaper = append(rp.Reaper, ev)
+		} else {
+			keep = append(keep, t)
+		}
+	}
+	rp.Notifs = keep
+	rp.normalise()
 }
 
 // second pass: place further notifications relative to productions the real loop performed
@@ -389,12 +732,32 @@ func refine(r *rand.Rand, rp *Replay, starts []int64) {
 		return
 	}
 	n := 1 + r.Intn(4)
+	viaReaper := rp.RTick == 0 && (len(rp.Reaper) > 0 || r.Intn(4) == 0)
+	p := &pool{next: maxID(rp)}
+	for id := int64(1); id <= p.next; id++ {
+		p.ids = append(p.ids, id)
+	}
+	put := func(t int64) {
+		if viaReaper && r.Intn(5) > 0 {
+			ev := p.answer(r, 5)
+			ev.T = t
+			rp.Reaper = append(rp.Reaper, ev)
+		} else {
+			rp.Notifs = append(rp.Notifs, t)
+		}
+	}
 	for j := 0; j < n; j++ {
 		i := r.Intn(len(starts))
 		s, d := starts[i], rp.dur(i)
 		t := s + pick(r, 0, d/2, d, d+msNs, d-1, 1, d+1, r.Int63n(d+1))
-		rp.Notifs = append(rp.Notifs, t)
+		put(t)
+		// ... and one while the loop waits before that production (the production is then the answer to it)
+		if r.Intn(3) == 0 {
+			bt := rp.effBT()
+			put(s - pick(r, 1, bt/3, bt/2, bt-1, r.Int63n(bt+1)))
+		}
 	}
+	rp.normalise()
 }
 
 // ---- Coq terms -----------------------------------------------------------------------------------------
@@ -413,10 +776,41 @@ func zz(x int64) string {
 	return strconv.FormatInt(x, 10)
 }
 
-func caseCoq(rp *Replay, starts []int64) string {
-	fuel := 4*(int64(len(rp.Notifs))+int64(len(starts))+rp.H/rp.effBT()+10) + 50
-	return fmt.Sprintf("{| lc_cfg := {| c_lazy := %s; c_bt := %s; c_li := %s; c_gen := %s; c_durs := %s; c_ddef := %s |}; lc_notifs := %s; lc_H := %s; lc_obs := %s; lc_fuel := %d%%N |}",
-		vgen.Bool(rp.Lazy), zz(rp.BT), zz(rp.LI), zz(rp.Gen), zs(rp.Durs), zz(rp.DDef), zs(rp.Notifs), zz(rp.H), zs(starts), fuel)
+func nlist(xs []int64) string {
+	p := make([]string, len(xs))
+	for i, x := range xs {
+		p[i] = strconv.FormatInt(x, 10) + "%N"
+	}
+	return "[" + strings.Join(p, ";") + "]"
+}
+
+// the calls of SubmitTxs that were made (instants < H) and the calls of SubmitBatchTxs that were observed
+func revsCoq(rp *Replay) string {
+	var p []string
+	for _, e := range rp.Reaper {
+		if e.T >= rp.H {
+			break
+		}
+		get := "Some " + nlist(e.Txs)
+		if e.GetErr {
+			get = "None"
+		}
+		p = append(p, fmt.Sprintf("(%s, {| ri_get := %s; ri_ok := %s; ri_seen_ok := %s |})", zz(e.T), get, vgen.Bool(!e.SubErr), vgen.Bool(!e.SeenErr)))
+	}
+	return "[" + strings.Join(p, ";") + "]"
+}
+func callsCoq(subs []subRec) string {
+	var p []string
+	for _, b := range subs {
+		p = append(p, fmt.Sprintf("(%s, (%s, %s))", zz(b.T), nlist(b.Ids), vgen.Bool(b.OK)))
+	}
+	return "[" + strings.Join(p, ";") + "]"
+}
+
+func caseCoq(rp *Replay, starts []int64, subs []subRec) string {
+	fuel := 4*(int64(len(rp.Notifs))+int64(len(rp.Reaper))+int64(len(starts))+rp.H/rp.effBT()+10) + 50
+	return fmt.Sprintf("{| lc_cfg := {| c_lazy := %s; c_bt := %s; c_li := %s; c_gen := %s; c_durs := %s; c_ddef := %s |}; lc_notifs := %s; lc_revs := %s; lc_calls := %s; lc_H := %s; lc_obs := %s; lc_fuel := %d%%N |}",
+		vgen.Bool(rp.Lazy), zz(rp.BT), zz(rp.LI), zz(rp.Gen), zs(rp.Durs), zz(rp.DDef), zs(rp.Notifs), revsCoq(rp), callsCoq(subs), zz(rp.H), zs(starts), fuel)
 }
 
 func hasSig(vs []viol, sig string) bool {
@@ -431,6 +825,8 @@ func hasSig(vs []viol, sig string) bool {
 func TestVerif(t *testing.T) {
 	e := vgen.GetEnv()
 	res := vgen.NewResult("C17", e)
+	_ = logging.Logger("c17")
+	_ = logging.SetLogLevel("c17", "fatal") // the reaper logs the scripted refusals as errors
 	var err error
 	rootDir, err = os.MkdirTemp("", "c17root")
 	if err != nil {
@@ -460,7 +856,7 @@ func TestVerif(t *testing.T) {
 			r := caseRng(e.Seed, c)
 			rp := genCase(r, e.Seed, c, e.Tier)
 			if r.Intn(2) == 0 {
-				st, err := runReal(t, rp)
+				st, _, err := runReal(t, rp)
 				if err != nil {
 					t.Fatalf("harness error: %v", err)
 				}
@@ -474,18 +870,38 @@ func TestVerif(t *testing.T) {
 	var cases []string
 	distinct := map[string]bool{}
 	for ji, rp := range jobs {
-		starts, err := runReal(t, rp)
+		starts, subs, err := runReal(t, rp)
 		if err != nil {
 			t.Fatalf("harness error: %v", err)
 		}
 		res.Evaluations++
-		vs := oracle(rp, starts)
+		vs := oracle(rp, starts, subs)
 		for _, v := range vs {
 			// shrink: drop notifications, then durations, while the same signature keeps failing
 			sh := *rp
+			sh.Reaper = append([]REv{}, rp.Reaper...)
 			fails := func(c *Replay) bool {
-				st, err := runReal(t, c)
-				return err == nil && hasSig(oracle(c, st), v.sig)
+				c.Reaper = append([]REv{}, c.Reaper...) // normalise sorts in place
+				st, sb, err := runReal(t, c)
+				return err == nil && hasSig(oracle(c, st, sb), v.sig)
+			}
+			if sh.RTick > 0 {
+				// the same calls made by the harness instead of the reaper's ticker loop
+				c := sh
+				c.RTick, c.RStart = 0, 0
+				if fails(&c) {
+					sh.RTick, sh.RStart = 0, 0
+				}
+			}
+			if sh.RTick == 0 {
+				sh.Reaper = vgen.Shrink(sh.Reaper, func(es []REv) bool { c := sh; c.Reaper = es; return fails(&c) })
+			}
+			if len(sh.NoAdv) > 0 {
+				c := sh
+				c.NoAdv = nil
+				if fails(&c) {
+					sh.NoAdv = nil
+				}
 			}
 			sh.Notifs = vgen.Shrink(sh.Notifs, func(ns []int64) bool { c := sh; c.Notifs = ns; return fails(&c) })
 			sh.Durs = vgen.Shrink(sh.Durs, func(dd []int64) bool { c := sh; c.Durs = dd; return fails(&c) })
@@ -498,8 +914,8 @@ func TestVerif(t *testing.T) {
 				sh = c
 			}
 			what := v.what
-			if st, err := runReal(t, &sh); err == nil {
-				for _, v2 := range oracle(&sh, st) {
+			if st, sb, err := runReal(t, &sh); err == nil {
+				for _, v2 := range oracle(&sh, st, sb) {
 					if v2.sig == v.sig {
 						what = v2.what
 					}
@@ -522,7 +938,7 @@ func TestVerif(t *testing.T) {
 		} else {
 			res.Count("mode:normal")
 		}
-		if len(rp.Notifs) == 0 {
+		if len(rp.Notifs) == 0 && len(subs) == 0 {
 			res.Count("notifications:none")
 		}
 		if rp.t0() > 0 {
@@ -560,7 +976,60 @@ func TestVerif(t *testing.T) {
 		}
 		res.Distribution["total:productions"] += len(starts)
 		res.Distribution["total:notifications"] += len(rp.Notifs)
-		cc := caseCoq(rp, starts)
+		if len(rp.Reaper) > 0 {
+			res.Count("reaper:cases-with-the-real-reaper")
+			if rp.RTick > 0 {
+				res.Count("reaper:driven-by-its-own-ticker-loop")
+			}
+			if len(rp.Notifs) == 0 {
+				res.Count("reaper:only-source-of-notifications")
+			}
+			rin, ridle, refused := 0, 0, 0
+			for _, b := range subs {
+				if !b.OK {
+					refused++
+					continue
+				}
+				in := false
+				for i, s := range starts {
+					if b.T > s && b.T <= s+rp.dur(i) {
+						in = true
+					}
+				}
+				if in {
+					rin++
+				} else {
+					ridle++
+				}
+			}
+			if rin > 0 {
+				res.Count("reaper:submission-during-production")
+			}
+			if ridle > 0 {
+				res.Count("reaper:submission-while-waiting")
+			}
+			if rin > 0 && ridle > 0 {
+				res.Count("reaper:submissions-both-waiting-and-during-production")
+			}
+			if refused > 0 {
+				res.Count("reaper:batch-refused-by-sequencer")
+			}
+			ncall := 0
+			for _, e := range rp.Reaper {
+				if e.T < rp.H {
+					ncall++
+				}
+			}
+			res.Distribution["total:reaper-SubmitTxs-calls"] += ncall
+			res.Distribution["total:reaper-batches-handed-to-sequencer"] += len(subs)
+		}
+		for _, k := range rp.NoAdv {
+			if k < len(starts) {
+				res.Count("history:production-without-height-advance")
+				break
+			}
+		}
+		cc := caseCoq(rp, starts, subs)
 		if len(starts) >= 3 {
 			distinct[cc] = true
 		}
@@ -570,11 +1039,11 @@ func TestVerif(t *testing.T) {
 			res.Samples = append(res.Samples, map[string]interface{}{"schedule": rp, "observed_starts_ns": starts})
 		}
 		if e.Replay != "" {
-			fmt.Printf("replay: starts=%v oracle=%v\n", starts, vs)
+			fmt.Printf("replay: starts=%v reaper-batches=%v oracle=%v\n", starts, subs, vs)
 		}
 	}
 	res.Distinct = len(distinct)
-	res.Rule = "one case = mode (82% lazy), block time (1 ms .. 1 s, sub-millisecond, 0 = default), lazy interval (ratios 1/4 .. 60 incl. equal and below the block time, 0 = default), genesis offset (start-up sleep or none), per-production durations (0, around the block time, around the lazy interval, longer than both), up to 29 notification instants (uniform, on block-timer ticks +-1ns, on lazy deadlines, bursts, before/during the start-up sleep, at production ends; in half of the cases also placed at start / inside / end / end+1ms of productions the real loop performed in a first pass), horizon 10-50 intervals (thorough 50-500); the real AggregationLoop runs under testing/synctest; non-trivial = at least 3 productions observed; distinct = distinct Coq case terms"
+	res.Rule = "one case = mode (82% lazy), block time (1 ms .. 1 s, sub-millisecond, 0 = default), lazy interval (ratios 1/4 .. 60 incl. equal and below the block time, 0 = default), genesis offset (start-up sleep or none), per-production durations (0, around the block time, around the lazy interval, longer than both), up to 29 notification instants (uniform, on block-timer ticks +-1ns, on lazy deadlines, bursts, before/during the start-up sleep, at production ends; in half of the cases also placed at start / inside / end / end+1ms of productions the real loop performed in a first pass, and shortly before them), the SOURCE of each notification (bare NotifyNewTransactions only 20% / real Reaper.SubmitTxs only 30% / mixed 35% / the reaper's own ticker loop Reaper.Start 15%), per reaper call the scripted answers (GetTxs: 0-2 new transactions next to already listed ones, the same one twice, error 5%; SubmitBatchTxs refusal 7%; seen-store write failure 6%), in 12% of the cases productions that do not advance the store height; horizon 10-50 intervals (thorough 50-500); the real AggregationLoop runs under testing/synctest; non-trivial = at least 3 productions observed; distinct = distinct Coq case terms"
 	res.Cases = len(cases)
 	header := "From Coq Require Import ZArith NArith List Bool.\nFrom Verif Require Import Model.Lazy Check.LazyCheck."
 	path := filepath.Join(e.Out, "cases_C17.v")
